@@ -5,7 +5,15 @@ import glob, os, sys
 coq = os.path.join(os.path.dirname(os.path.abspath(__file__)), "..", "coq")
 parts = []
 for f in sorted(glob.glob(os.path.join(coq, "project.d", "*.list"))):
-    parts.append(open(f).read().strip())
+    lines = []
+    for line in open(f).read().splitlines():
+        t = line.strip()
+        if t and not t.startswith("-") and not t.startswith("#") and not os.path.exists(os.path.join(coq, t)) \
+                and not t.startswith("gen/"):
+            print(f"mkproject: {os.path.basename(f)} lists missing file {t} (skipped)", file=sys.stderr)
+            continue
+        lines.append(line)
+    parts.append("\n".join(lines).strip())
 text = "\n".join(p for p in parts if p) + "\n"
 dst = os.path.join(coq, "_CoqProject")
 if not os.path.exists(dst) or open(dst).read() != text:
